@@ -200,20 +200,20 @@ def Res4.setRec (r : Res4) (rec : ResRec) : Res4 :=
   | .asset => { r with assetHolding := rec.hold.toOpt, assetParams := rec.params.toOpt }
   | .app => { r with appLocal := rec.hold.toOpt, appParams := rec.params.toOpt }
 
+/-- `m[k] = (v, m[k].ndeltas + 1)`: one more delta holds the key -/
+def idxBump {K V : Type} [DecidableEq K] (m : AMap K (V × Nat)) (k : K) (v : V) : AMap K (V × Nat) :=
+  AMap.set m k (v, (match AMap.get m k with | some (_, n) => n | none => 0) + 1)
+
 /-- newBlockImpl (the delta is the one of round latest+1; `trackers.newBlock` is preceded by the block store append) -/
 def newBlockTracker (σ : State) (d : Delta) : State :=
   let bA := σ.baseAccounts.flushPendingWrites
   let bR := σ.baseResources.flushPendingWrites
   let bK := σ.baseKVs.flushPendingWrites
-  let accounts := d.accts.foldl (fun m p =>
-    AMap.set m p.1 (p.2, (match AMap.get m p.1 with | some (_, n) => n | none => 0) + 1)) σ.accounts
+  let accounts := d.accts.foldl (fun m p => idxBump m p.1 p.2) σ.accounts
   let resources := d.res.foldl (fun m rec =>
-    let old := (AMap.get m (rec.addr, rec.cidx)).getD ({}, 0)
-    AMap.set m (rec.addr, rec.cidx) (old.1.setRec rec, old.2 + 1)) σ.resources
-  let kvStore := d.kvs.foldl (fun m kv =>
-    AMap.set m kv.key (kv.data, (match AMap.get m kv.key with | some (_, n) => n | none => 0) + 1)) σ.kvStore
-  let creatables := d.creat.foldl (fun m c =>
-    AMap.set m c.cidx (c, (match AMap.get m c.cidx with | some (_, n) => n | none => 0) + 1)) σ.creatables
+    idxBump m (rec.addr, rec.cidx) (((AMap.get m (rec.addr, rec.cidx)).getD ({}, 0)).1.setRec rec)) σ.resources
+  let kvStore := d.kvs.foldl (fun m kv => idxBump m kv.key kv.data) σ.kvStore
+  let creatables := d.creat.foldl (fun m c => idxBump m c.cidx c) σ.creatables
   { σ with
     deltas := σ.deltas ++ [d], versions := σ.versions ++ [d.ver],
     accounts := accounts, resources := resources, kvStore := kvStore, creatables := creatables,
@@ -226,94 +226,95 @@ def newBlock (σ : State) (d : Delta) : State :=
 
 /-! ### point lookups -/
 
+/-- the tail of lookupWithoutRewards: baseAccounts, its not-found set, then the DB with the round re-check -/
+def acctFromDb (σ : State) (a : Addr) (rnd : Nat) : Except Err (AcctData × Nat) × State :=
+  match σ.baseAccounts.read a with
+  | some e => (.ok (e.val.getD AcctData.empty, rnd), { σ with baseAccounts := σ.baseAccounts.writePending a e })
+  | none =>
+    if σ.baseAccounts.readNotFound a then (.ok (AcctData.empty, rnd), σ)
+    else
+      -- accountsq.LookupAccount: (db round, row)
+      if σ.db.round = σ.dbRound then
+        match AMap.get σ.db.accts a with
+        | some d => (.ok (d, rnd), { σ with baseAccounts := σ.baseAccounts.writePending a ⟨some d, σ.db.round⟩ })
+        | none => (.ok (AcctData.empty, rnd), { σ with baseAccounts := σ.baseAccounts.writeNotFoundPending a })
+      else if σ.db.round < σ.dbRound then (.error .staleDb, σ)
+      else (.error .retry, σ)
+
 /-- lookupWithoutRewards: (account data, validThrough) -/
 def lookupAcct (σ : State) (rnd : Nat) (a : Addr) : Except Err (AcctData × Nat) × State :=
   match roundOffset σ rnd with
   | .error e => (.error e, σ)
   | .ok offset =>
-    let macct := AMap.get σ.accounts a
-    let fromDeltas : Option AcctData :=
-      match macct with
-      | some (data, _) =>
-        if offset = σ.deltas.length then some data            -- the most recent round: the index holds the value
-        else walkBack (·.acct? a) σ.deltas offset             -- walk deltas backwards
-      | none => none
-    match fromDeltas with
-    | some d => (.ok (d, rnd), σ)
+    match AMap.get σ.accounts a with
+    | some (data, _) =>
+      -- the address appears in the deltas
+      if offset = σ.deltas.length then (.ok (data, rnd), σ)       -- the most recent round: the index holds the value
+      else
+        match walkBack (·.acct? a) σ.deltas offset with            -- walk deltas backwards
+        | some d => (.ok (d, rnd), σ)
+        | none => acctFromDb σ a rnd
     | none =>
       -- not in the deltas at all: the answer is valid through the end of the known delta range
-      let rnd := if macct.isSome then rnd else σ.dbRound + σ.deltas.length
-      match σ.baseAccounts.read a with
-      | some e => (.ok (e.val.getD AcctData.empty, rnd), { σ with baseAccounts := σ.baseAccounts.writePending a e })
+      acctFromDb σ a (σ.dbRound + σ.deltas.length)
+
+/-- the tail of lookupResource: baseResources, its not-found set, then accountsq.LookupResources(addr, aidx, ctype) -/
+def resFromDb (σ : State) (a : Addr) (c : Cidx) (t : CType) (rnd : Nat) : Except Err (ResVal × Nat) × State :=
+  match σ.baseResources.read (a, c) with
+  | some e =>
+    (.ok ((e.val.map (·.proj t)).getD {}, rnd), { σ with baseResources := σ.baseResources.writePending (a, c) e })
+  | none =>
+    if σ.baseResources.readNotFound (a, c) then (.ok ({}, rnd), σ)
+    else
+      match AMap.get σ.db.res (a, c) with
+      | some row =>
+        if row.ctype ≠ t then (.error .wrongType, σ)
+        else if σ.db.round = σ.dbRound then
+          (.ok (row.val, rnd), { σ with baseResources := σ.baseResources.writePending (a, c) ⟨some row, σ.db.round⟩ })
+        else if σ.db.round < σ.dbRound then (.error .staleDb, σ) else (.error .retry, σ)
       | none =>
-        if σ.baseAccounts.readNotFound a then (.ok (AcctData.empty, rnd), σ)
-        else
-          -- accountsq.LookupAccount: (db round, row)
-          let row := AMap.get σ.db.accts a
-          if σ.db.round = σ.dbRound then
-            match row with
-            | some d => (.ok (d, rnd), { σ with baseAccounts := σ.baseAccounts.writePending a ⟨some d, σ.db.round⟩ })
-            | none => (.ok (AcctData.empty, rnd), { σ with baseAccounts := σ.baseAccounts.writeNotFoundPending a })
-          else if σ.db.round < σ.dbRound then (.error .staleDb, σ)
-          else (.error .retry, σ)
+        if σ.db.round = σ.dbRound then
+          (.ok ({}, rnd), { σ with baseResources := σ.baseResources.writeNotFoundPending (a, c) })
+        else if σ.db.round < σ.dbRound then (.error .staleDb, σ) else (.error .retry, σ)
 
 /-- lookupResource, projected to the queried creatable type as Ledger.LookupAsset / LookupApplication do -/
 def lookupRes (σ : State) (rnd : Nat) (a : Addr) (c : Cidx) (t : CType) : Except Err (ResVal × Nat) × State :=
   match roundOffset σ rnd with
   | .error e => (.error e, σ)
   | .ok offset =>
-    let macct := AMap.get σ.resources (a, c)
-    let fromDeltas : Option ResVal :=
-      match macct with
-      | some (r, _) =>
-        if offset = σ.deltas.length then some (r.proj t)
-        else walkBack (·.res? a c t) σ.deltas offset          -- Accts.GetResource(addr, aidx, ctype)
-      | none => none
-    match fromDeltas with
-    | some v => (.ok (v, rnd), σ)
-    | none =>
-      let rnd := if macct.isSome then rnd else σ.dbRound + σ.deltas.length
-      match σ.baseResources.read (a, c) with
-      | some e =>
-        (.ok ((e.val.map (·.proj t)).getD {}, rnd), { σ with baseResources := σ.baseResources.writePending (a, c) e })
-      | none =>
-        if σ.baseResources.readNotFound (a, c) then (.ok ({}, rnd), σ)
-        else
-          -- accountsq.LookupResources(addr, aidx, ctype)
-          match AMap.get σ.db.res (a, c) with
-          | some row =>
-            if row.ctype ≠ t then (.error .wrongType, σ)
-            else if σ.db.round = σ.dbRound then
-              (.ok (row.val, rnd), { σ with baseResources := σ.baseResources.writePending (a, c) ⟨some row, σ.db.round⟩ })
-            else if σ.db.round < σ.dbRound then (.error .staleDb, σ) else (.error .retry, σ)
-          | none =>
-            if σ.db.round = σ.dbRound then
-              (.ok ({}, rnd), { σ with baseResources := σ.baseResources.writeNotFoundPending (a, c) })
-            else if σ.db.round < σ.dbRound then (.error .staleDb, σ) else (.error .retry, σ)
+    match AMap.get σ.resources (a, c) with
+    | some (r, _) =>
+      if offset = σ.deltas.length then (.ok (r.proj t, rnd), σ)
+      else
+        match walkBack (·.res? a c t) σ.deltas offset with          -- Accts.GetResource(addr, aidx, ctype)
+        | some v => (.ok (v, rnd), σ)
+        | none => resFromDb σ a c t rnd
+    | none => resFromDb σ a c t (σ.dbRound + σ.deltas.length)
+
+/-- the tail of lookupKv: baseKVs, then accountsq.LookupKeyValue with the round re-check -/
+def kvFromDb (σ : State) (k : Key) : Except Err (Option Bytes) × State :=
+  match σ.baseKVs.read k with
+  | some e => (.ok e.val, { σ with baseKVs := σ.baseKVs.writePending k e })
+  | none =>
+    if σ.db.round = σ.dbRound then
+      -- deleted values are cached too
+      (.ok (AMap.get σ.db.kvs k), { σ with baseKVs := σ.baseKVs.writePending k ⟨AMap.get σ.db.kvs k, σ.db.round⟩ })
+    else if σ.db.round < σ.dbRound then (.error .staleDb, σ)
+    else (.error .retry, σ)
 
 /-- lookupKv -/
 def lookupKv (σ : State) (rnd : Nat) (k : Key) : Except Err (Option Bytes) × State :=
   match roundOffset σ rnd with
   | .error e => (.error e, σ)
   | .ok offset =>
-    let fromDeltas : Option (Option Bytes) :=
-      match AMap.get σ.kvStore k with
-      | some (data, _) =>
-        if offset = σ.deltas.length then some data
-        else walkBack (·.kv? k) σ.deltas offset
-      | none => none
-    match fromDeltas with
-    | some v => (.ok v, σ)
-    | none =>
-      match σ.baseKVs.read k with
-      | some e => (.ok e.val, { σ with baseKVs := σ.baseKVs.writePending k e })
-      | none =>
-        -- accountsq.LookupKeyValue
-        let v := AMap.get σ.db.kvs k
-        if σ.db.round = σ.dbRound then
-          (.ok v, { σ with baseKVs := σ.baseKVs.writePending k ⟨v, σ.db.round⟩ })   -- deleted values are cached too
-        else if σ.db.round < σ.dbRound then (.error .staleDb, σ)
-        else (.error .retry, σ)
+    match AMap.get σ.kvStore k with
+    | some (data, _) =>
+      if offset = σ.deltas.length then (.ok data, σ)
+      else
+        match walkBack (·.kv? k) σ.deltas offset with
+        | some v => (.ok v, σ)
+        | none => kvFromDb σ k
+    | none => kvFromDb σ k
 
 /-- LookupCreator(cidx, ctype): `assetcreators ON asset = ? AND ctype = ?` -/
 def dbCreator (db : DB) (c : Cidx) (t : CType) : Option Addr :=
@@ -410,63 +411,82 @@ def exceptFold {α β : Type} (f : β → α → Except Err β) : List α → β
   | [], b => .ok b
   | x :: xs, b => match f b x with | .ok b' => exceptFold f xs b' | .error e => .error e
 
+/-- makeCompactAccountDeltas: the old row is taken from baseAccounts when cached (tombstones included), else
+    (accountsLoadOld) read from the DB -/
+def acctOld (σ : State) (a : Addr) : Option AcctData :=
+  match σ.baseAccounts.read a with
+  | some e => e.val
+  | none => AMap.get σ.db.accts a
+
+def acctNew (es : List AcctData) : AcctData := es.getLast?.getD AcctData.empty
+
+def acctRowOf (v : AcctData) : Option AcctData := if v = AcctData.empty then none else some v
+
+def acctStep (σ : State) (accts : AMap Addr AcctData) (p : Addr × List AcctData) : Except Err (AMap Addr AcctData) :=
+  writeAcct accts p.1 (acctOld σ p.1) (acctNew p.2)
+
+/-- makeCompactResourceDeltas: a cached entry is trusted only when it is a live row (AcctRef != nil); otherwise
+    resourcesLoadOld reads the DB -/
+def resOld (σ : State) (k : Addr × Cidx) : Option ResRow :=
+  match σ.baseResources.read k with
+  | some e => (match e.val with | some row => some row | none => AMap.get σ.db.res k)
+  | none => AMap.get σ.db.res k
+
+/-- the compacted new row: SetAssetData / SetAppData of every record in round order, starting from the empty row -/
+def resNew (es : List ResRec) : Option ResRow :=
+  let v := es.foldl setResData {}
+  if v.isEmpty then none else some ⟨(es.head?.map (·.ctype)).getD .asset, v⟩
+
+def resStep (σ : State) (res : AMap (Addr × Cidx) ResRow) (p : (Addr × Cidx) × List ResRec) : Except Err (AMap (Addr × Cidx) ResRow) :=
+  writeRes res p.1 (resOld σ p.1) (resNew p.2)
+
+/-- accountsNewRoundImpl, kv part: the first OldData and the newest Data decide -/
+def kvStep (acc : AMap Key Bytes × List (Key × Option Bytes)) (p : Key × List KvMod) : AMap Key Bytes × List (Key × Option Bytes) :=
+  let oldData := (p.2.head?.map (·.old)).getD none
+  let data := (p.2.getLast?.map (·.data)).getD none
+  match data with
+  | some v =>
+    if oldData = some v then acc                                   -- changed back within the delta span
+    else (AMap.set acc.1 p.1 v, acc.2 ++ [(p.1, some v)])          -- UpsertKvPair
+  | none =>
+    if oldData.isNone then acc                                     -- came and went within the delta span
+    else (AMap.del acc.1 p.1, acc.2 ++ [(p.1, none)])              -- DeleteKvPair
+
+def creatStep (cr : AMap Cidx (CType × Addr)) (p : Cidx × List CreatMod) : Except Err (AMap Cidx (CType × Addr)) :=
+  match p.2.getLast? with
+  | none => .ok cr
+  | some m =>
+    if m.created then
+      if (AMap.get cr p.1).isSome then .error (.db "InsertCreatable: UNIQUE constraint")
+      else .ok (AMap.set cr p.1 (m.ctype, m.creator))
+    else
+      -- DELETE FROM assetcreators WHERE asset = ? AND ctype = ?   (asset is the primary key)
+      match AMap.get cr p.1 with
+      | some row => if row.1 = m.ctype then .ok (AMap.del cr p.1) else .ok cr
+      | none => .ok cr
+
 /-- prepareCommit + commitRound of accountUpdates for `deltas[:offset]` (one DB transaction: all or nothing) -/
 def commitRound (σ : State) (offset : Nat) : Except Err CommitOut :=
   let ds := σ.deltas.take offset
   let newBase := σ.dbRound + offset
-  -- makeCompactAccountDeltas: old value from the LRU when cached, else (accountsLoadOld) from the DB
   let cA := compact (ds.map (·.accts))
   let cR := compact (ds.map (fun d => d.res.map (fun r => ((r.addr, r.cidx), r))))
   let cK := compact (ds.map (fun d => d.kvs.map (fun m => (m.key, m))))
   let cC := compact (ds.map (fun d => d.creat.map (fun m => (m.cidx, m))))
-  let acctsE := exceptFold (fun accts (p : Addr × List AcctData) =>
-      let old := match σ.baseAccounts.read p.1 with
-        | some e => e.val
-        | none => AMap.get σ.db.accts p.1
-      writeAcct accts p.1 old (p.2.getLast?.getD AcctData.empty)) cA σ.db.accts
-  match acctsE with
+  match exceptFold (acctStep σ) cA σ.db.accts with
   | .error e => .error e
   | .ok accts =>
-  let resE := exceptFold (fun res (p : (Addr × Cidx) × List ResRec) =>
-      -- a cached entry is trusted only when it is a live row (AcctRef != nil); otherwise resourcesLoadOld reads the DB
-      let old := match σ.baseResources.read p.1 with
-        | some ⟨some row, _⟩ => some row
-        | _ => AMap.get σ.db.res p.1
-      let v := p.2.foldl setResData {}
-      let new := if v.isEmpty then none else some ⟨(p.2.head?.map (·.ctype)).getD .asset, v⟩
-      writeRes res p.1 old new) cR σ.db.res
-  match resE with
+  match exceptFold (resStep σ) cR σ.db.res with
   | .error e => .error e
   | .ok res =>
-  -- kv: the first OldData and the newest Data decide
-  let kvStep (acc : AMap Key Bytes × List (Key × Option Bytes)) (p : Key × List KvMod) : AMap Key Bytes × List (Key × Option Bytes) :=
-    let oldData := (p.2.head?.map (·.old)).getD none
-    let data := (p.2.getLast?.map (·.data)).getD none
-    match data with
-    | some v =>
-      if oldData = some v then acc                                   -- changed back within the delta span
-      else (AMap.set acc.1 p.1 v, acc.2 ++ [(p.1, some v)])          -- UpsertKvPair
-    | none =>
-      if oldData.isNone then acc                                     -- came and went within the delta span
-      else (AMap.del acc.1 p.1, acc.2 ++ [(p.1, none)])              -- DeleteKvPair
-  let (kvs, updKvs) := cK.foldl kvStep (σ.db.kvs, [])
-  let creatE := exceptFold (fun cr (p : Cidx × List CreatMod) =>
-      match p.2.getLast? with
-      | none => .ok cr
-      | some m =>
-        if m.created then
-          if (AMap.get cr p.1).isSome then .error (.db "InsertCreatable: UNIQUE constraint")
-          else .ok (AMap.set cr p.1 (m.ctype, m.creator))
-        else .ok (cr.filter (fun q => !(q.1 = p.1 && q.2.1 = m.ctype)))) cC σ.db.creat
-  match creatE with
+  let kvr := cK.foldl kvStep (σ.db.kvs, [])
+  match exceptFold creatStep cC σ.db.creat with
   | .error e => .error e
   | .ok creat =>
-  .ok { db := { round := newBase, accts := accts, res := res, kvs := kvs, creat := creat },
-        updAccts := cA.map (fun p => let v := p.2.getLast?.getD AcctData.empty; (p.1, if v = AcctData.empty then none else some v)),
-        updRes := cR.map (fun p =>
-          let v := p.2.foldl setResData {}
-          (p.1, if v.isEmpty then none else some ⟨(p.2.head?.map (·.ctype)).getD .asset, v⟩)),
-        updKvs := updKvs,
+  .ok { db := { round := newBase, accts := accts, res := res, kvs := kvr.1, creat := creat },
+        updAccts := cA.map (fun p => (p.1, acctRowOf (acctNew p.2))),
+        updRes := cR.map (fun p => (p.1, resNew p.2)),
+        updKvs := kvr.2,
         cntAccts := cA.map (fun p => (p.1, p.2.length)), cntRes := cR.map (fun p => (p.1, p.2.length)),
         cntKvs := cK.map (fun p => (p.1, p.2.length)), cntCreat := cC.map (fun p => (p.1, p.2.length)) }
 
@@ -554,22 +574,26 @@ structure DbKvPage where
   items : List (Key × Option Bytes)
   more : Bool
 
-/-- processKvRows over the rows of the range query (sorted by key): `qualifies` = strictly after the cursor and not
-    excluded; byte budget with "at least one"; stop at `limit`; then peek for one more qualifying row -/
+/-- `qualifies` of processKvRows: strictly after the cursor and not excluded (handled by the in-memory deltas) -/
+def kvQualifies (cursor : Key) (exclude : List Key) (k : Key) : Bool := keyLt cursor k && !exclude.contains k
+
+/-- the row loop of processKvRows: byte budget with "at least one"; stop at `limit`; then peek for one more
+    qualifying row -/
+def kvScanLoop (cursor : Key) (limit maxBytes : Nat) (vals : Bool) (exclude : List Key) :
+    List (Key × Bytes) → List (Key × Option Bytes) → Nat → Nat → DbKvPage
+  | [], acc, _, _ => ⟨acc, false⟩
+  | (k, v) :: rest, acc, collected, bytesAccum =>
+    if !kvQualifies cursor exclude k then kvScanLoop cursor limit maxBytes vals exclude rest acc collected bytesAccum
+    else
+      let item : Key × Option Bytes := (k, if vals then some v else none)
+      let itemBytes := k.length + (if vals then v.length else 0)
+      if maxBytes > 0 && bytesAccum + itemBytes > maxBytes && collected > 0 then ⟨acc, true⟩
+      else if limit > 0 && collected + 1 ≥ limit then ⟨acc ++ [item], rest.any (fun r => kvQualifies cursor exclude r.1)⟩   -- break, then peek
+      else kvScanLoop cursor limit maxBytes vals exclude rest (acc ++ [item]) (collected + 1) (bytesAccum + itemBytes)
+
+/-- processKvRows over the rows of the range query (sorted by key) -/
 def processKvRows (rows : List (Key × Bytes)) (cursor : Key) (limit maxBytes : Nat) (vals : Bool) (exclude : List Key) : DbKvPage :=
-  let qualifies (k : Key) : Bool := keyLt cursor k && !exclude.contains k
-  let rec loop (rows : List (Key × Bytes)) (acc : List (Key × Option Bytes)) (collected bytesAccum : Nat) : DbKvPage :=
-    match rows with
-    | [] => ⟨acc, false⟩
-    | (k, v) :: rest =>
-      if !qualifies k then loop rest acc collected bytesAccum
-      else
-        let item : Key × Option Bytes := (k, if vals then some v else none)
-        let itemBytes := k.length + (if vals then v.length else 0)
-        if maxBytes > 0 && bytesAccum + itemBytes > maxBytes && collected > 0 then ⟨acc, true⟩
-        else if limit > 0 && collected + 1 ≥ limit then ⟨acc ++ [item], rest.any (fun r => qualifies r.1)⟩   -- break, then peek
-        else loop rest (acc ++ [item]) (collected + 1) (bytesAccum + itemBytes)
-  loop rows [] 0 0
+  kvScanLoop cursor limit maxBytes vals exclude rows [] 0 0
 
 /-- LookupKeysByPrefixCursor: `none` = "lookup by strange prefix" (no upper end) -/
 def dbKvScan (db : DB) (pfx cursor : Key) (limit maxBytes : Nat) (vals : Bool) (exclude : List Key) : Option DbKvPage :=
